@@ -125,9 +125,31 @@ Section PullProofs.
     intros Hl. rewrite reads_run by (cbn [start todo]; exact Hl).
     cbn [done start close_cur cur todo app]. unfold on_record. apply map_snd_combine. exact Hl.
   Qed.
+
+  Lemma map_firstn_all (pkg : list (list R)) :
+    map (on_record false) (combine (map (@length R) pkg) pkg) = pkg.
+  Proof.
+    induction pkg as [|t ts IH]; cbn [map combine]; [reflexivity|].
+    unfold on_record at 1. cbn [fst snd]. rewrite firstn_all. f_equal. exact IH.
+  Qed.
+
+  (* a consumer that reads every resource to its end - as load does with the resources its selector skips, since fix f784d67 -
+     lets a producer that does not read on by itself (duplicate's store, join's index, concatenate's chain) see every row *)
+  Theorem full_reader_complete pkg :
+    done (fst (orun R false (start R pkg) (reads (map (@length R) pkg)))) = pkg.
+  Proof.
+    rewrite reads_run by (cbn [start todo]; apply map_length).
+    cbn [done start close_cur cur todo app]. apply map_firstn_all.
+  Qed.
 End PullProofs.
 
 (* without the observer reading on by itself (the code before fix 9cf3000) that fails: one resource of two rows, one row read *)
 Theorem no_drain_refuted : exists (pkg : list (list nat)) takes, length takes = length pkg /\
   done (fst (orun nat false (start nat pkg) (reads takes))) <> pkg.
 Proof. exists [[1; 2]], [1]. split; [reflexivity | cbv; discriminate]. Qed.
+
+(* a consumer that skips a resource (reads none of its rows) leaves such a producer with nothing of it: the copy made by
+   duplicate came back empty *)
+Theorem skipping_reader_refuted : exists (pkg : list (list nat)),
+  done (fst (orun nat false (start nat pkg) (reads (map (fun _ => 0) pkg)))) <> pkg.
+Proof. exists [[1; 2]]. cbv. discriminate. Qed.
